@@ -103,20 +103,39 @@ def _worker(mod_id: str, seed: int, tier: str, w: int, nw: int, deadline: float,
     mod = load_prop(mod_id)
     agg = new_agg()
     i = w
+    cur_path = out_path + ".current"
+    last_dump = time.time()
+
+    def dump() -> None:
+        snap = dict(agg)
+        snap["digests"] = sorted(agg["digests"])
+        snap["states"] = sorted(agg["states"])[:200000]
+        with open(out_path + ".tmp", "w", encoding="utf-8") as f:
+            json.dump(snap, f)
+        os.replace(out_path + ".tmp", out_path)
+
     try:
         while i < max_cases and time.time() < deadline:
             case = case_for(mod, seed, tier, i)
+            # (if this process dies or hangs in native code the parent re-runs
+            # exactly this case in a sandboxed interpreter)
+            with open(cur_path, "w", encoding="utf-8") as f:
+                json.dump(case, f)
+            if time.time() - last_dump > 5.0:
+                dump()
+                last_dump = time.time()
             res = run_one(mod, case, case_timeout)
             if os.environ.get("VERIF_DEBUG") and res.get("wall", 0) > 3:
                 print(f"[debug] slow case {i}: {res['wall']:.1f}s "
                       f"{res.get('vclass')}", file=sys.stderr)
             fold(agg, case, res)
             i += nw
+        try:
+            os.unlink(cur_path)
+        except OSError:
+            pass
     finally:
-        agg["digests"] = sorted(agg["digests"])
-        agg["states"] = sorted(agg["states"])[:200000]
-        with open(out_path, "w", encoding="utf-8") as f:
-            json.dump(agg, f)
+        dump()
 
 
 def new_agg() -> dict:
@@ -274,6 +293,70 @@ def determinism_probe(mod_id: str, seed: int, tier: str, expect: dict,
     return None
 
 
+def _children(pid: int) -> list[int]:
+    out = []
+    try:
+        for t in os.listdir(f"/proc/{pid}/task"):
+            with open(f"/proc/{pid}/task/{t}/children", encoding="ascii") as f:
+                out += [int(x) for x in f.read().split()]
+    except OSError:
+        pass
+    return out
+
+
+def _tree(pid: int) -> list[int]:
+    res = [pid]
+    for c in _children(pid):
+        res += _tree(c)
+    return res
+
+
+def rss_of_tree(pid: int) -> float:
+    total = 0
+    for p in _tree(pid):
+        try:
+            with open(f"/proc/{p}/statm", encoding="ascii") as f:
+                total += int(f.read().split()[1]) * 4096
+        except (OSError, IndexError, ValueError):
+            pass
+    return total
+
+
+def kill_tree(pid: int) -> None:
+    for p in reversed(_tree(pid)):
+        try:
+            os.kill(p, signal.SIGKILL)
+        except OSError:
+            pass
+
+
+def rerun_sandboxed(mod_id: str, case_path: str, timeout: float,
+                    mem_limit: float) -> dict:
+    cmd = [sys.executable, os.path.join(VERIF, "simlib", "main.py"),
+           "runcase", mod_id, case_path]
+    proc = subprocess.Popen(cmd, stdout=subprocess.PIPE,
+                            stderr=subprocess.DEVNULL, text=True,
+                            start_new_session=True)
+    t0 = time.time()
+    failure = None
+    while proc.poll() is None:
+        if time.time() - t0 > timeout:
+            failure = f"no result within {timeout:.0f} s"
+        elif rss_of_tree(proc.pid) > mem_limit:
+            failure = (f"resident memory above {mem_limit / 2**30:.0f} GiB")
+        if failure:
+            kill_tree(proc.pid)
+            proc.wait()
+            return {"sandbox_failure": failure}
+        time.sleep(0.25)
+    out = proc.stdout.read()
+    for line in out.splitlines():
+        if line.startswith("RUNCASE_JSON "):
+            return json.loads(line[13:])
+    return {"sandbox_failure": f"interpreter exited with {proc.returncode} "
+            f"and no result"}
+
+
 def cmd_digests(mod_id: str, tier: str, indices: str) -> int:
     seed = int(os.environ.get("VERIF_SEED", "0"))
     mod = load_prop(mod_id)
@@ -315,22 +398,67 @@ def cmd_check(mod_id: str, tier: str) -> int:
         procs.append(p)
     harness_problems = []
     hard = deadline + b["case_timeout"] + 30
-    for w, p in enumerate(procs):
-        p.join(max(1.0, hard - time.time()))
-        if p.is_alive():
-            p.kill()
-            p.join()
-            harness_problems.append(f"worker {w} killed by watchdog")
-        elif p.exitcode != 0:
-            harness_problems.append(f"worker {w} exit code {p.exitcode}")
+    mem_limit = float(os.environ.get("VERIF_MEM_LIMIT_GB", "3")) * 2**30
+    abnormal = {}
+    alive = dict(enumerate(procs))
+    while alive:
+        for w, p in list(alive.items()):
+            if not p.is_alive():
+                p.join()
+                if p.exitcode != 0:
+                    abnormal[w] = f"exit code {p.exitcode}"
+                del alive[w]
+            elif time.time() > hard:
+                kill_tree(p.pid)
+                p.join()
+                abnormal[w] = "no answer (killed by the watchdog)"
+                del alive[w]
+            elif rss_of_tree(p.pid) > mem_limit:
+                kill_tree(p.pid)
+                p.join()
+                abnormal[w] = (f"resident memory above "
+                               f"{mem_limit / 2**30:.0f} GiB (killed)")
+                del alive[w]
+        time.sleep(0.25)
     aggs = []
     for w in range(nw):
         path = os.path.join(tmp, f"w{w}.json")
         if os.path.exists(path):
             with open(path, encoding="utf-8") as f:
                 aggs.append(json.load(f))
-        else:
+        elif w not in abnormal:
             harness_problems.append(f"worker {w} wrote no result")
+    # a worker that died or hung in native code: re-run the case it was on in
+    # a sandboxed fresh interpreter so that the outcome is attributable
+    extra = new_agg()
+    reruns = 0
+    for w, why in sorted(abnormal.items()):
+        cur = os.path.join(tmp, f"w{w}.json.current")
+        if reruns >= 2 and extra["violations"]:
+            continue  # verdict established; do not re-run every dead worker
+        reruns += 1
+        if not os.path.exists(cur):
+            harness_problems.append(f"worker {w}: {why} (between cases)")
+            continue
+        with open(cur, encoding="utf-8") as f:
+            case = json.load(f)
+        res = rerun_sandboxed(mod_id, cur, b["case_timeout"] + 60, mem_limit)
+        if res.get("sandbox_failure"):
+            if getattr(mod, "HANG_IS_VIOLATION", False):
+                res = {"ok": False,
+                       "vclass": "hang_or_blowup_observed_by_watchdog",
+                       "detail": f"case {case.get('_index')}: worker {why}; "
+                       f"re-run in a fresh interpreter: "
+                       f"{res['sandbox_failure']}",
+                       "key": {"engine": "watchdog"}, "digest": "watchdog"}
+            else:
+                harness_problems.append(
+                    f"worker {w}: {why}; re-run: {res['sandbox_failure']}")
+                continue
+        fold(extra, case, res)
+    extra["digests"] = sorted(extra["digests"])
+    extra["states"] = sorted(extra["states"])
+    aggs.append(extra)
     shutil.rmtree(tmp, ignore_errors=True)
     agg = merge(aggs) if aggs else new_agg()
     sim_wall = time.time() - t0
